@@ -691,3 +691,10 @@ package core
 //@   at storeLeaderWeightPath 1 assert [of-this-store] arg0 == ite(store == nil, 0, store.Id)
 //@   at storeRegionWeightPath 1 assert [of-this-store] arg0 == ite(store == nil, 0, store.Id)
 //@   modifies ghost kvhas, ghost kvval
+
+// The store-set informer the rule manager asks when a CLIENT hands in a rule ("matches at least one store"); an event, so
+// that the load path can state that it never asks it.
+//@ func (StoreSetInformer).GetStores
+//@   assumed
+//@   option event informerStores
+//@   modifies nothing
